@@ -66,6 +66,24 @@ def check_tokenizer(ctx):
         ends = [n for n in cfg.real_nodes() if isinstance(n.ast, ast.Assign) and norm(n.ast.targets[0]) == "in_comment" and cnd.canon(n.ast.value, True) == {(f"{cv} in self.comment_end_chars", False)} and cnd.holds(cfg, n, "in_comment")]
         ok = len(ends) == 1
     ctx.ob("C19.G1", q, ok, "a comment ends at the line break" if ok else "comments do not end at the line break", key="comment-end", where=f.where)
+    # classification of one character: text inside a comment is dropped, whitespace and brackets end a name, anything else
+    # is part of the name - each action is taken for exactly its class
+    def branch_facts(node):
+        return {(t, p) for t, p in cnd.facts(cfg, node) if t not in (f"{cv} == ''", "True")}
+
+    klass = {
+        "whitespace ends the current name": ([n for n in cfg.real_nodes() if any(c == "self._process_whitespace" for c in n.call_names())], {("in_comment", False), (f"{cv} in self.whitespaces", True)}),
+        "a bracket ends the current name and is an element itself": ([n for n in cfg.real_nodes() if any(c == "self._process_operator" for c in n.call_names())], {("in_comment", False), (f"{cv} in self.operators", True)}),
+        "any other character outside a comment extends the current name": ([n for n in cfg.real_nodes() if isinstance(n.ast, ast.AugAssign) and norm(n.ast.target) == "current_token" and norm(n.ast.value) == cv] +
+                                                                           [n for n in cfg.real_nodes() if isinstance(n.ast, ast.Assign) and norm(n.ast.targets[0]) == "current_token" and norm(n.ast.value) in (f"current_token + {cv}",)],
+                                                                           {("in_comment", False), (f"{cv} in self.whitespaces", False), (f"{cv} in self.operators", False)}),
+    }
+    for label, (nodes, want) in klass.items():
+        got = [branch_facts(n) for n in nodes]
+        # the order of the whitespace / bracket tests is free (the classes are disjoint): a fact about the other class may be present
+        optional = {(f"{cv} in self.whitespaces", False), (f"{cv} in self.operators", False), (f"{cv} in self.comment_start_chars", False), (f"{cv} in self.comment_start_chars", True)}
+        ok = len(nodes) == 1 and want <= got[0] and not (got[0] - want - optional)
+        ctx.ob("C19.G1", q, ok, label if ok else f"not ({label}): the action is taken under {[cnd.show(g) for g in got]}, the documented syntax needs {cnd.show(want)}", key="class " + label.split()[0], where=f.where)
     ok = repo.const("SFDLTokenizer", "comment_start_chars") == "#" and set(repo.const("SFDLTokenizer", "comment_end_chars")) == {"\n", "\r"} and repo.const("SFDLTokenizer", "operators") == "<>"
     ctx.ob("C19.G1", "SFDLTokenizer", ok, "alphabet: '#' comment, line-break end, '<' '>' operators" if ok else "tokenizer alphabet constants deviate from the documented syntax", key="alphabet", where=repo.cls("SFDLTokenizer").where)
     g = repo.method("SFDLTokenizer", "_get_char", inherited=False)
@@ -104,6 +122,12 @@ def check_tokenizer(ctx):
     rec = [n for n in lcfg.real_nodes() if any(c == "self._process_tokens" for c in n.call_names())]
     ok = len(rec) == 1 and any(rules.expand(lt.node, n.ast) == "elements.peek()[0] == '>'" for n in lcfg.nodes if n.kind == "test")
     ctx.ob("C19.G1", lt.qualname, ok, "a list body is a sequence of elements ended by '>' (each recursion consumes its element)" if ok else "list members are not read until the closing '>'", key="list-loop", where=lt.where)
+    # the optional list name: the first element of a list body is its name exactly when it is not a bracket
+    names = [n for n in lcfg.real_nodes() if any(call_name(c) == "SFDLToken" and c.args and norm(c.args[0]) == "SFDLTokenType.LIST_NAME" for c in calls_in(n.ast))]
+    got = [{(t, p) for t, p in cnd.facts(lcfg, n)} for n in names]
+    ok = len(names) == 1 and got[0] == {("elements.available", True), ("elements.peek()[0] in '<>'", False)} and not any(lcfg.dominates(h, names[0]) for h in heads)
+    ctx.ob("C19.G1", lt.qualname, ok, "the first element of a list body is taken as the list's name exactly when it is not a bracket" if ok else
+           f"the LIST_NAME token is produced under {[cnd.show(g) for g in got]}: a named list loses its name or a bracket is taken for a name", key="list-name", where=lt.where)
     el = repo.method("_SFDLElementList", "pop", inherited=False)
     ok = [norm(s) for s in rules.func_stmts(el.node)] == ["return self._items.pop(0)"]
     ctx.ob("C19.G1", el.qualname, ok, "pop consumes the first element" if ok else "_SFDLElementList.pop does not consume the first element", where=el.where)
